@@ -354,9 +354,26 @@ func (ef *Effects) allHeap() map[string]string {
 func (e *Enc) loopEffects(fc *fctx, l *loopInfo) *Effects {
 	ef := newEffects()
 	// ghosts assigned by `after` clauses of the contract may change in any loop that makes calls
-	if fc.contract != nil {
+	if fc.contract != nil && len(fc.contract.Ghost) > 0 {
+		called := map[string]bool{}
+		for b := range l.blocks {
+			for _, ins := range b.Instrs {
+				if c, ok := ins.(ssa.CallInstruction); ok {
+					if f := c.Common().StaticCallee(); f != nil {
+						if n, ok := e.m.fnName[f]; ok {
+							called[n] = true
+						}
+						called[f.String()] = true
+					} else if _, isB := c.Common().Value.(*ssa.Builtin); !isB {
+						called["*"] = true
+					}
+				}
+			}
+		}
 		for _, g := range fc.contract.Ghost {
-			ef.ghost[g.Label] = true
+			if called[g.Site] || called["*"] {
+				ef.ghost[g.Label] = true
+			}
 		}
 	}
 	// dynamic calls through a function-type role: that role's `updates`
